@@ -66,7 +66,7 @@ Pad(vs, left) ==
   ELSE IF n = 3 /\ Len(vs[3].s) # 1 THEN VErr
   ELSE LET w == IntArg(vs[2])  s == vs[1].s
            c == IF n = 3 THEN vs[3].s ELSE <<32>>
-       IN IF w > 64 + Len(s) THEN Open                  \* larger than the model renders
+       IN IF w > 400 + Len(s) THEN Open                 \* larger than the model renders
           ELSE LET fill == RepeatSeq(c, w - Len(s)) IN
                Str(IF left THEN fill \o s ELSE s \o fill)
 
